@@ -119,6 +119,14 @@ StridePatCase(c) ==
     <<"PrintParse", c.reparsed = c.orig>>
   >>)
 
+(* ---------------- C09: layouts chosen by the compiler ---------------- *)
+ChosenLayout(c) ==
+  First(<<
+    <<"RankMatches", Len(c.L.dims) = Len(c.shape)>>,
+    <<"CoversShape", \A d \in DOMAIN c.shape : ProdFrom(c.L.dims[d], 1) = c.shape[d]>>,
+    <<"Injective", Injective(c.L)>>
+  >>)
+
 EqCase(c) == First(<< <<c.clause, c.x = c.y>> >>)
 
 JudgeObj(c) ==
@@ -133,6 +141,7 @@ JudgeObj(c) ==
     [] c.kind = "accesspat" -> AccessPatCase(c)
     [] c.kind = "stridepat" -> StridePatCase(c)
     [] c.kind = "eq" -> EqCase(c)
+    [] c.kind = "chosenlayout" -> ChosenLayout(c)
     [] OTHER -> "machinery:unknown-kind"
 
 Init == tid \in 1..Len(Cases) /\ verdict = ""
